@@ -92,6 +92,14 @@ func vfC49GenPrefix(rt *rapid.T, label string) vfC49Prefix {
 }
 
 func vfC49GenPlan(rt *rapid.T) vfC49Plan {
+	p := vfC49GenChains(rt)
+	vfC49GenConns(rt, &p)
+	return p
+}
+
+// vfC49GenChains draws the listener part of a plan (wildcard flag, default
+// chain flag, filter chain set); shared with the accept unit.
+func vfC49GenChains(rt *rapid.T) vfC49Plan {
 	p := vfC49Plan{Wildcard: rapid.IntRange(0, 3).Draw(rt, "wildcard") > 0, HasDefault: rapid.Bool().Draw(rt, "has_default")}
 	n := rapid.IntRange(1, 12).Draw(rt, "nchains")
 	for i := 0; i < n; i++ {
@@ -131,6 +139,10 @@ func vfC49GenPlan(rt *rapid.T) vfC49Plan {
 		}
 		p.Chains = append(p.Chains, c)
 	}
+	return p
+}
+
+func vfC49GenConns(rt *rapid.T, p *vfC49Plan) {
 	nc := rapid.IntRange(1, 8).Draw(rt, "nconns")
 	pick := func(label string, fromDst bool) string {
 		// an address inside one of the configured prefixes (its base address
@@ -166,7 +178,6 @@ func vfC49GenPlan(rt *rapid.T) vfC49Plan {
 		}
 		p.Conns = append(p.Conns, cn)
 	}
-	return p
 }
 
 // ---- reference ---------------------------------------------------------------
@@ -443,50 +454,48 @@ func vfC49Cidrs(ps []vfC49Prefix) []*v3corepb.CidrRange {
 	return out
 }
 
-func vfC49Run(_ *testing.T, p vfC49Plan) vk.Result {
-	boot, err := vfC49Bootstrap()
-	if err != nil {
-		return vk.Bad("harness: bootstrap: %v", err)
+// vfC49Build turns the listener part of a plan into the Listener proto (socket
+// address addr:port) and the reference chains (ids 1..n; "rc-<id>" is the route
+// name that identifies the chain in the code under test; "rc-default" the
+// default chain). ok=false: the plan is outside the domain.
+func vfC49Build(p vfC49Plan, addr string, port uint32) (lis *v3listenerpb.Listener, ref []vfC49RefChain, ok bool, err error) {
+	if len(p.Chains) == 0 || len(p.Chains) > 12 {
+		return nil, nil, false, nil
 	}
-	if len(p.Chains) == 0 || len(p.Chains) > 12 || len(p.Conns) == 0 {
-		return vk.Result{Discard: true}
-	}
-	// reference chains (ids 1..n; "rc-<id>" is the route name that identifies
-	// the chain in the code under test; "rc-default" the default chain)
-	ref := make([]vfC49RefChain, len(p.Chains))
-	lis := &v3listenerpb.Listener{
+	ref = make([]vfC49RefChain, len(p.Chains))
+	lis = &v3listenerpb.Listener{
 		Name: "verif-listener",
 		Address: &v3corepb.Address{Address: &v3corepb.Address_SocketAddress{SocketAddress: &v3corepb.SocketAddress{
-			Address: "0.0.0.0", PortSpecifier: &v3corepb.SocketAddress_PortValue{PortValue: 8080}}}},
+			Address: addr, PortSpecifier: &v3corepb.SocketAddress_PortValue{PortValue: port}}}},
 	}
 	for i, c := range p.Chains {
 		rc := vfC49RefChain{id: i + 1, stype: c.SType, ports: c.Ports}
 		if c.SType < 0 || c.SType > 2 {
-			return vk.Result{Discard: true}
+			return nil, nil, false, nil
 		}
 		for _, d := range c.Dst {
 			rp, ok := vfC49MkPrefix(d)
 			if !ok {
-				return vk.Result{Discard: true}
+				return nil, nil, false, nil
 			}
 			rc.dst = append(rc.dst, rp)
 		}
 		for _, s := range c.Src {
 			rp, ok := vfC49MkPrefix(s)
 			if !ok {
-				return vk.Result{Discard: true}
+				return nil, nil, false, nil
 			}
 			rc.src = append(rc.src, rp)
 		}
 		for _, pt := range c.Ports {
 			if pt == 0 || pt > 65535 {
-				return vk.Result{Discard: true}
+				return nil, nil, false, nil
 			}
 		}
 		ref[i] = rc
 		fs, err := vfC49Filters(fmt.Sprintf("rc-%d", i+1))
 		if err != nil {
-			return vk.Bad("harness: %v", err)
+			return nil, nil, false, err
 		}
 		lis.FilterChains = append(lis.FilterChains, &v3listenerpb.FilterChain{
 			Name: fmt.Sprintf("fc-%d", i+1),
@@ -502,9 +511,120 @@ func vfC49Run(_ *testing.T, p vfC49Plan) vk.Result {
 	if p.HasDefault {
 		fs, err := vfC49Filters("rc-default")
 		if err != nil {
-			return vk.Bad("harness: %v", err)
+			return nil, nil, false, err
 		}
 		lis.DefaultFilterChain = &v3listenerpb.FilterChain{Name: "fc-default", Filters: fs}
+	}
+	return lis, ref, true, nil
+}
+
+type vfC49Tuple struct {
+	dst, src vfC49RefPrefix
+	stype    int
+	port     uint32
+}
+
+// vfC49Tuples lists the (dst prefix, source type, src prefix, port) match
+// tuples of one reference chain (unspecified prefix = bits -1, no port = 0).
+func vfC49Tuples(c vfC49RefChain) []vfC49Tuple {
+	dsts, srcs, ports := c.dst, c.src, c.ports
+	if len(dsts) == 0 {
+		dsts = []vfC49RefPrefix{{bits: -1}}
+	}
+	if len(srcs) == 0 {
+		srcs = []vfC49RefPrefix{{bits: -1}}
+	}
+	if len(ports) == 0 {
+		ports = []uint32{0}
+	}
+	var out []vfC49Tuple
+	for _, d := range dsts {
+		for _, s := range srcs {
+			for _, pt := range ports {
+				out = append(out, vfC49Tuple{d, s, c.stype, pt})
+			}
+		}
+	}
+	return out
+}
+
+// vfC49StaticOverlap: two (chain, dst, type, src, port) tuples coincide.
+func vfC49StaticOverlap(ref []vfC49RefChain) bool {
+	tuples := map[vfC49Tuple]int{}
+	overlap := false
+	for _, c := range ref {
+		for _, t := range vfC49Tuples(c) {
+			if _, dup := tuples[t]; dup {
+				overlap = true
+			}
+			tuples[t] = c.id
+		}
+	}
+	return overlap
+}
+
+// vfC49Judge compares the selection observed for one connection (got = route
+// name of the selected chain, "" if none; lerr = the selection failed) with
+// the reference result. It returns a violation text, or a class label, or
+// judged=false when the case is counted but not judged.
+func vfC49Judge(p vfC49Plan, want vfC49RefResult, cn vfC49Conn, got string, lerr error) (violation, class string, judged bool) {
+	if len(want.chains) >= 2 && (p.Wildcard || want.stage3Dsts <= 1) {
+		// an accepted configuration in which two chains tie for a connection
+		return fmt.Sprintf("validation accepted a configuration in which chains %v tie for dst=%s src=%s sport=%d (wildcard=%v): %+v",
+			want.chains, cn.Dst, cn.Src, cn.SPort, p.Wildcard, p.Chains), "", true
+	}
+	if !p.Wildcard && want.stage3Dsts >= 2 {
+		// DESIGN 5, C49 reading: on a listener bound to a specific address
+		// destination prefixes are not considered, so chains that differ
+		// only in their destination prefix collide at lookup time. Neither
+		// the statement nor the in-repo text says validation must reject
+		// such a configuration; the lookup error is counted, not judged.
+		if lerr == nil && got != "rc-default" {
+			ok := false
+			for _, id := range want.chains {
+				ok = ok || got == fmt.Sprintf("rc-%d", id)
+			}
+			if !ok {
+				return fmt.Sprintf("dst=%s src=%s sport=%d on a specific-address listener: chain %q selected, reference survivors %v: %+v", cn.Dst, cn.Src, cn.SPort, got, want.chains, p.Chains), "", true
+			}
+		}
+		return "", "specific_listener_dst_collision", false
+	}
+	switch len(want.chains) {
+	case 0:
+		if p.HasDefault {
+			if lerr != nil || got != "rc-default" {
+				return fmt.Sprintf("dst=%s src=%s sport=%d (wildcard=%v): no chain matches, want the default chain, got chain %q err=%v: %+v", cn.Dst, cn.Src, cn.SPort, p.Wildcard, got, lerr, p.Chains), "", true
+			}
+			return "", "lookup_default", true
+		}
+		if lerr == nil {
+			return fmt.Sprintf("dst=%s src=%s sport=%d (wildcard=%v): no chain matches and no default chain, but chain %q was selected: %+v", cn.Dst, cn.Src, cn.SPort, p.Wildcard, got, p.Chains), "", true
+		}
+		return "", "lookup_none", true
+	default: // exactly one (ties were handled above)
+		w := fmt.Sprintf("rc-%d", want.chains[0])
+		if lerr != nil || got != w {
+			return fmt.Sprintf("dst=%s src=%s sport=%d (wildcard=%v): most specific match is chain %s, got chain %q err=%v: %+v", cn.Dst, cn.Src, cn.SPort, p.Wildcard, w, got, lerr, p.Chains), "", true
+		}
+		return "", "lookup_chain", true
+	}
+}
+
+func vfC49Run(_ *testing.T, p vfC49Plan) vk.Result {
+	boot, err := vfC49Bootstrap()
+	if err != nil {
+		return vk.Bad("harness: bootstrap: %v", err)
+	}
+	if len(p.Conns) == 0 {
+		return vk.Result{Discard: true}
+	}
+	lis, ref, ok, err := vfC49Build(p, "0.0.0.0", 8080)
+	if err != nil {
+		return vk.Bad("harness: %v", err)
+	}
+	if !ok {
+		return vk.Result{Discard: true}
 	}
 	for _, cn := range p.Conns {
 		_, _, ok1 := vfC49ParseAddr(cn.Dst)
@@ -529,38 +649,7 @@ func vfC49Run(_ *testing.T, p vfC49Plan) vk.Result {
 	dec := xdsresource.NewListenerResourceTypeDecoder(boot, nil)
 	dr, derr := dec.Decode(xdsclient.NewAnyProto(a), xdsclient.DecodeOptions{})
 
-	// static overlap in the reference: two (chain, dst, type, src, port)
-	// tuples coincide
-	type tuple struct {
-		dst, src vfC49RefPrefix
-		stype    int
-		port     uint32
-	}
-	tuples := map[tuple]int{}
-	overlap := false
-	for _, c := range ref {
-		dsts, srcs, ports := c.dst, c.src, c.ports
-		if len(dsts) == 0 {
-			dsts = []vfC49RefPrefix{{bits: -1}}
-		}
-		if len(srcs) == 0 {
-			srcs = []vfC49RefPrefix{{bits: -1}}
-		}
-		if len(ports) == 0 {
-			ports = []uint32{0}
-		}
-		for _, d := range dsts {
-			for _, s := range srcs {
-				for _, pt := range ports {
-					t := tuple{d, s, c.stype, pt}
-					if _, dup := tuples[t]; dup {
-						overlap = true
-					}
-					tuples[t] = c.id
-				}
-			}
-		}
-	}
+	overlap := vfC49StaticOverlap(ref)
 	if overlap {
 		res.Classes = append(res.Classes, "static_overlap")
 	}
@@ -585,11 +674,6 @@ func vfC49Run(_ *testing.T, p vfC49Plan) vk.Result {
 		if want.multiLevel {
 			res.NonTrivial = true
 		}
-		if len(want.chains) >= 2 && (p.Wildcard || want.stage3Dsts <= 1) {
-			// an accepted configuration in which two chains tie for a connection
-			return vk.Bad("validation accepted a configuration in which chains %v tie for dst=%s src=%s sport=%d (wildcard=%v): %+v",
-				want.chains, cn.Dst, cn.Src, cn.SPort, p.Wildcard, p.Chains)
-		}
 		dstA, _ := netip.ParseAddr(cn.Dst)
 		srcA, _ := netip.ParseAddr(cn.Src)
 		fc, lerr := fcm.lookup(lookupParams{isUnspecifiedListener: p.Wildcard, dstAddr: dstA, srcAddr: srcA, srcPort: cn.SPort})
@@ -597,45 +681,14 @@ func vfC49Run(_ *testing.T, p vfC49Plan) vk.Result {
 		if fc != nil {
 			got = fc.routeConfigName
 		}
-		if !p.Wildcard && want.stage3Dsts >= 2 {
-			// DESIGN 5, C49 reading: on a listener bound to a specific address
-			// destination prefixes are not considered, so chains that differ
-			// only in their destination prefix collide at lookup time. Neither
-			// the statement nor the in-repo text says validation must reject
-			// such a configuration; the lookup error is counted, not judged.
-			res.Classes = append(res.Classes, "specific_listener_dst_collision")
-			if lerr == nil && got != "rc-default" {
-				ok := false
-				for _, id := range want.chains {
-					ok = ok || got == fmt.Sprintf("rc-%d", id)
-				}
-				if !ok {
-					return vk.Bad("dst=%s src=%s sport=%d on a specific-address listener: chain %q selected, reference survivors %v: %+v", cn.Dst, cn.Src, cn.SPort, got, want.chains, p.Chains)
-				}
-			}
-			continue
+		violation, class, judged := vfC49Judge(p, want, cn, got, lerr)
+		if violation != "" {
+			return vk.Bad("%s", violation)
 		}
-		switch len(want.chains) {
-		case 0:
-			if p.HasDefault {
-				if lerr != nil || got != "rc-default" {
-					return vk.Bad("dst=%s src=%s sport=%d (wildcard=%v): no chain matches, want the default chain, got chain %q err=%v: %+v", cn.Dst, cn.Src, cn.SPort, p.Wildcard, got, lerr, p.Chains)
-				}
-				res.Classes = append(res.Classes, "lookup_default")
-			} else {
-				if lerr == nil {
-					return vk.Bad("dst=%s src=%s sport=%d (wildcard=%v): no chain matches and no default chain, but chain %q was selected: %+v", cn.Dst, cn.Src, cn.SPort, p.Wildcard, got, p.Chains)
-				}
-				res.Classes = append(res.Classes, "lookup_none")
-			}
-		default: // exactly one (ties were handled above)
-			w := fmt.Sprintf("rc-%d", want.chains[0])
-			if lerr != nil || got != w {
-				return vk.Bad("dst=%s src=%s sport=%d (wildcard=%v): most specific match is chain %s, got chain %q err=%v: %+v", cn.Dst, cn.Src, cn.SPort, p.Wildcard, w, got, lerr, p.Chains)
-			}
-			res.Classes = append(res.Classes, "lookup_chain")
+		res.Classes = append(res.Classes, class)
+		if judged {
+			res.Steps++
 		}
-		res.Steps++
 	}
 	return res
 }
